@@ -49,7 +49,18 @@ def parse_log(text):
     return its, final
 
 
-def run_exact(rec):
+def run_exact_pair(pair):
+    """Two behaviours with the same tolerance and cap run one after the other on the SAME optimiser object
+    (a second run() must behave like the first run() of a fresh object)."""
+    first = run_exact(pair[0])
+    second = run_exact(pair[1], opt=_LAST["opt"])
+    return [first, second]
+
+
+_LAST = {}
+
+
+def run_exact(rec, opt=None):
     """rec: exported Optimizer behaviour."""
     from seqm.Molecule import Molecule
     from seqm.seqm_functions.constants import Constants
@@ -64,7 +75,10 @@ def run_exact(rec):
     pad0 = coords[:, 2].clone()
     params = mdlib.seqm_params()
     mol = Molecule(Constants(), params, coords.clone(), species)
-    opt = MDmod.Geometry_Optimization_SD(params, alpha=0.25, force_tol=rec["tol8"] / 8.0, max_evl=int(rec["cap"]))
+    if opt is None:
+        opt = MDmod.Geometry_Optimization_SD(params, alpha=0.25, force_tol=rec["tol8"] / 8.0, max_evl=int(rec["cap"]))
+    _LAST["opt"] = opt
+    calls0 = opt.esdriver.ncalls
     buf = io.StringIO()
     old = sys.stdout
     sys.stdout = buf
@@ -74,7 +88,7 @@ def run_exact(rec):
         sys.stdout = old
     its, final = parse_log(buf.getvalue())
     return {"its": its, "final": final, "ret_fmax": float(fe), "ret_de": float(ee), "x": [float(mol.coordinates[m, 0, 0]) for m in range(nm)],
-            "pad_moved": float((mol.coordinates[:, 2] - pad0).abs().max()), "other_atom": float(mol.coordinates[:, 1].abs().max()), "evals": opt.esdriver.ncalls}
+            "pad_moved": float((mol.coordinates[:, 2] - pad0).abs().max()), "other_atom": float(mol.coordinates[:, 1].abs().max()), "evals": opt.esdriver.ncalls - calls0}
 
 
 def compare_exact(rec, o):
